@@ -6,8 +6,11 @@ import (
 	"sort"
 	"strings"
 
+	context2 "github.com/oneconcern/datamon/pkg/context"
 	"github.com/oneconcern/datamon/pkg/core"
 	"github.com/oneconcern/datamon/pkg/model"
+	"github.com/oneconcern/datamon/pkg/storage/localfs"
+	"github.com/spf13/afero"
 	"gopkg.in/yaml.v2"
 
 	"verifsim/simkit"
@@ -32,15 +35,37 @@ func runC09Create(rc *RunCtx) *simkit.Violation {
 	// neighbours whose names are prefixes / extensions of the contested one
 	seedRepo(d, "a-b-c")
 	seedRepo(d, "a0")
+	// store flavour: the GCS-contract simstore, or datamon's own local file system backend on a shared disk where
+	// every file-system call of every creator is a scheduling point (create-if-absent = O_EXCL, other error texts)
+	local := t.Bool(1, 3)
+	var sharedDisk afero.Fs
+	if local {
+		sharedDisk = afero.NewBasePathFs(afero.NewMemMapFs(), "/meta")
+		_ = sharedDisk.MkdirAll(".", 0o755)
+		for _, n := range []string{"a-b-c", "a0"} {
+			_ = sharedDisk.MkdirAll("repos/"+n, 0o755)
+			_ = afero.WriteFile(sharedDisk, model.GetArchivePathToRepoDescriptor(n), mustYAML(model.RepoDescriptor{Name: n, Description: "seeded", Contributor: contributor}), 0o644)
+		}
+		w.Probe("localfs-metadata-store")
+	}
+	storesOf := func(cl *simkit.Client) context2.Stores {
+		if !local {
+			return d.Stores(cl)
+		}
+		disk := w.NewDisk("disk-"+cl.Name, cl, sharedDisk)
+		meta := localfs.New(disk, localfs.WithLogger(nopLog), localfs.WithRetry(t.Bool(1, 2)))
+		return context2.NewStores(cl.Store(d.Wal), cl.Store(d.RLog), cl.Store(d.Blob), meta, cl.Store(d.VMet))
+	}
 	var tasks []*simkit.Task
 	for i := 0; i < k; i++ {
 		i := i
 		cl := w.Client(fmt.Sprintf("creator%d", i))
+		st := storesOf(cl)
 		tasks = append(tasks, w.Go(cl, "create", func() (interface{}, error) {
-			return nil, core.CreateRepo(model.RepoDescriptor{Name: name, Description: fmt.Sprintf("created by %d", i), Contributor: contributor}, d.Stores(cl))
+			return nil, core.CreateRepo(model.RepoDescriptor{Name: name, Description: fmt.Sprintf("created by %d", i), Contributor: contributor}, st)
 		}))
 	}
-	w.Note("%d concurrent CreateRepo(%q)", k, name)
+	w.Note("%d concurrent CreateRepo(%q) on %s", k, name, map[bool]string{true: "localfs", false: "simstore(GCS)"}[local])
 	if v := w.Run(); v != nil {
 		v.Property = prop
 		return v
@@ -57,12 +82,17 @@ func runC09Create(rc *RunCtx) *simkit.Violation {
 	if len(winners) != 1 {
 		return Viol(prop, "create-not-exclusive", "CreateRepo", name, "%d of %d concurrent creators of %q report success (%v)", len(winners), k, name, winners)
 	}
-	o := d.Meta.Peek(model.GetArchivePathToRepoDescriptor(name))
-	if o == nil {
+	var stored []byte
+	if local {
+		stored, _ = afero.ReadFile(sharedDisk, model.GetArchivePathToRepoDescriptor(name))
+	} else if o := d.Meta.Peek(model.GetArchivePathToRepoDescriptor(name)); o != nil {
+		stored = o.Data
+	}
+	if stored == nil {
 		return Viol(prop, "create-lost", "CreateRepo", name, "a creator reported success but the repository descriptor does not exist")
 	}
 	var rd model.RepoDescriptor
-	if err := yaml.Unmarshal(o.Data, &rd); err != nil || rd.Description != fmt.Sprintf("created by %d", winners[0]) {
+	if err := yaml.Unmarshal(stored, &rd); err != nil || rd.Description != fmt.Sprintf("created by %d", winners[0]) {
 		return Viol(prop, "create-wrong-descriptor", "CreateRepo", name, "creator %d won but the stored descriptor says %q (err %v)", winners[0], rd.Description, err)
 	}
 	// which creator's write landed first = the order explored
@@ -72,14 +102,26 @@ func runC09Create(rc *RunCtx) *simkit.Violation {
 	}
 	// the name is now taken for later creators as well
 	late := w.Client("late")
+	lst := storesOf(late)
 	lt, v := doOp(prop, w, late, "create-late", func() (interface{}, error) {
-		return nil, core.CreateRepo(model.RepoDescriptor{Name: name, Description: "late", Contributor: contributor}, d.Stores(late))
+		return nil, core.CreateRepo(model.RepoDescriptor{Name: name, Description: "late", Contributor: contributor}, lst)
 	})
 	if v != nil {
 		return v
 	}
 	if lt.Err == nil {
 		return Viol(prop, "create-not-exclusive", "CreateRepo-late", name, "creating %q again succeeded", name)
+	}
+	// ... and the repository is still the winner's
+	if local {
+		stored, _ = afero.ReadFile(sharedDisk, model.GetArchivePathToRepoDescriptor(name))
+	} else if o := d.Meta.Peek(model.GetArchivePathToRepoDescriptor(name)); o != nil {
+		stored = o.Data
+	} else {
+		stored = nil
+	}
+	if err := yaml.Unmarshal(stored, &rd); stored == nil || err != nil || rd.Description != fmt.Sprintf("created by %d", winners[0]) {
+		return Viol(prop, "create-lost", "CreateRepo-late", name, "after a refused late create the repository of creator %d is gone or altered (descriptor %q)", winners[0], rd.Description)
 	}
 	return nil
 }
